@@ -26,7 +26,9 @@ def main(argv=None):
              '(1000) of the explicit-transaction-manager family (begin/commit/abort/modify inside and OUTSIDE a '
              'transaction — refused with NoTransaction —, close, reopen; oracle only); Connection.sync() with pending '
              'changes; ZODB.Connection.resetCaches() between close and reopen (multi-database family); structured '
-             'savepoint programs whose commit fails before the connection voted (judged in C12 mode); the pickling scenarios also '
+             'savepoint programs whose commit fails before the connection voted, plus 60 (thorough: 1500) of C12\'s '
+             'scenarios and random savepoint/rollback programs (all judged by the oracle in C12 mode: the outcome '
+             'of abort, commit and failed commit after savepoints and rollbacks); the pickling scenarios also '
              'reach new objects through persistent weak references pickled before / without an ordinary reference; non-trivial = a commit or savepoint found a new object '
              'by reachability and some commit failed or a joined transaction was aborted; distinct by hash of the case',
         assumptions=['the explicit-transaction-manager family is judged by the oracle alone: a refused registration has '
